@@ -233,7 +233,7 @@ func nearestCase(c *Ctx, xo *Opnd, tag string) {
 			msg = fmt.Sprintf("value %v correct but accuracy %v, want %d", got, acc, wacc)
 		}
 		if msg != "" {
-			if v.Form == fFinite && xo.Exp <= 420 && xo.Exp >= -420 && doubleRoundingClass(ratOfVal(v), got, want, is32) {
+			if v.Form == fFinite && xo.Exp <= 420 && xo.Exp >= -420 && doubleRoundingClass(xo, ratOfVal(v), got, want, is32) {
 				c.Known("float-double-rounding", key(name), msg)
 			} else {
 				c.Fail(key(name), msg)
@@ -256,9 +256,26 @@ func nearestCase(c *Ctx, xo *Opnd, tag string) {
 // value is still one of the two floats that bracket x (faithful rounding, never
 // more than one unit off) but may be the second nearest, and the accuracy is
 // then reported relative to the intermediate instead of x.
-func doubleRoundingClass(r *big.Rat, got, want float64, is32 bool) bool {
+func doubleRoundingClass(xo *Opnd, r *big.Rat, got, want float64, is32 bool) bool {
 	if math.IsNaN(got) || math.IsInf(got, 0) || math.IsInf(want, 0) {
 		return false
+	}
+	// the mechanism of the finding is an inexact 64-bit intermediate. Float64 builds it as
+	// (mantissa words as an integer, rounded to 65 bits) × or ÷ (5^|e| rounded to 64 bits), rounded to
+	// 65 and then to 64 bits: when the odd part of the mantissa integer fits 65 bits, 5^|e| fits 64
+	// bits (|e| <= 27) and x itself fits 64 bits, every step is exact and the finding cannot apply
+	if xo != nil && xo.Form == fFinite {
+		i := wordsToInt(xo.Words)
+		if tz := i.TrailingZeroBits(); tz > 0 {
+			i = new(big.Int).Rsh(i, tz)
+		}
+		e := xo.Exp - int64(len(xo.Words))*DW
+		if e < 0 {
+			e = -e
+		}
+		if f := new(big.Float).SetPrec(64).SetRat(r); i.BitLen() <= 65 && e <= 27 && f.Acc() == big.Exact {
+			return false
+		}
 	}
 	next := func(f, dir float64) float64 {
 		if is32 {
@@ -629,7 +646,9 @@ func floatLayers(tier string) []Layer {
 	// H4: decimal-side values and saturation
 	{
 		var xs []*Opnd
-		for _, cf := range []int64{1, 2, 5, 9, 15, 17976931348623157, 17976931348623158, 17976931348623159, 4940656458412465, 2470328229206232, 2470328229206233, 24703282292062327, 24703282292062328, 34028234663852886, 34028235677973366, 14012984643248170, 7006492321624085, 7006492321624086, 123456789, 999999999999999999} {
+		for _, cf := range []int64{1, 2, 5, 9, 15, 17976931348623157, 17976931348623158, 17976931348623159, 4940656458412465, 2470328229206232, 2470328229206233, 24703282292062327, 24703282292062328, 34028234663852886, 34028235677973366, 14012984643248170, 7006492321624085, 7006492321624086, 123456789, 999999999999999999,
+			// integers around 2^24, 2^53, 2^54 and 2^63 (the first ones a float cannot hold), 15/16/17-digit all-nines
+			16777215, 16777217, 16777219, 9007199254740991, 9007199254740993, 9007199254740995, 9007199254740997, 18014398509481986, 18014398509481987, 999999999999999, 9999999999999999, 99999999999999999, 9223372036854775807, 9223372036854775295} {
 			xs = append(xs, mkInt64(cf, 0, 34, 0))
 		}
 		for _, s := range RunLengthStrings(18) {
